@@ -417,19 +417,28 @@ def gen_fx_recursive(rng, linear=False, max_q=None, dead=False, scalar_start=Fal
                 rules.append({'lhs': X, 'nodes': nodes, 'edges': edges, 'ext': ext})
         if patterned:
             # a binary nonterminal P whose base rule is an IDENTITY factor (built as a diagonal
-            # PatternedTensor): its iterates change sparsity pattern, its sum-product is patterned
+            # PatternedTensor): its iterates change sparsity pattern ("tri"), or its sum-product stays a
+            # diagonal pattern for ever ("diag")
+            pvariant = rng.choice(['tri', 'diag'])
             els['P'] = {'t': False, 'type': ['T', 'T']}
             els['eq'] = {'t': True, 'type': ['T', 'T']}
-            els['m'] = {'t': True, 'type': ['T', 'T']}
             n = nls['T']
             wfx['eq'] = [FXS if i == j else 0 for i in range(n) for j in range(n)]
-            # strictly upper triangular: (I - M)^-1 = I + M + M^2 is exact on the grid, so P needs no constant rule
-            wfx['m'] = [(rng.choice([256, 256, 512]) if j > i else 0) for i in range(n) for j in range(n)]
-            rules.append({'lhs': 'P', 'nodes': ['T', 'T'], 'edges': [{'lab': 'eq', 'att': [1, 2]}, {'lab': 'b', 'att': []}], 'ext': [1, 2]})
-            rules.append({'lhs': 'P', 'nodes': ['T', 'T', 'T'], 'edges': [{'lab': 'P', 'att': [1, 3]}, {'lab': 'm', 'att': [3, 2]}], 'ext': [1, 2]})
+            nS = len(els['S']['type'])
+            if pvariant == 'tri':
+                els['m'] = {'t': True, 'type': ['T', 'T']}
+                # upper triangular, diagonal entries 0 or 1/2: (I - M)^-1 is dyadic, convergence is geometric
+                wfx['m'] = [(rng.choice([256, 256, 512]) if j > i else (rng.choice([0, 512]) if j == i else 0)) for i in range(n) for j in range(n)]
+                rules.append({'lhs': 'P', 'nodes': ['T', 'T'], 'edges': [{'lab': 'eq', 'att': [1, 2]}, {'lab': 'b', 'att': []}], 'ext': [1, 2]})
+                rules.append({'lhs': 'P', 'nodes': ['T', 'T', 'T'], 'edges': [{'lab': 'P', 'att': [1, 3]}, {'lab': 'm', 'att': [3, 2]}], 'ext': [1, 2]})
+            else:
+                els['v'] = {'t': True, 'type': ['T']}
+                wfx['v'] = [rng.choice([0, 512, 512]) for _ in range(n)]
+                rules.append({'lhs': 'P', 'nodes': ['T', 'T'], 'edges': [{'lab': 'eq', 'att': [1, 2]}, {'lab': 'a', 'att': [1]}], 'ext': [1, 2]})
+                rules.append({'lhs': 'P', 'nodes': ['T', 'T', 'T'], 'edges': [{'lab': 'P', 'att': [1, 3]}, {'lab': 'eq', 'att': [3, 2]}, {'lab': 'v', 'att': [2]}], 'ext': [1, 2]})
             rules.append({'lhs': 'S', 'nodes': list(els['S']['type']) + ['T', 'T'],
-                          'edges': [{'lab': 'P', 'att': [len(els['S']['type']) + 1, len(els['S']['type']) + 2]}, {'lab': 'a', 'att': [len(els['S']['type']) + 1]}, {'lab': 'b', 'att': []}],
-                          'ext': list(range(1, len(els['S']['type']) + 1))})
+                          'edges': [{'lab': 'P', 'att': [nS + 1, nS + 2]}, {'lab': 'a', 'att': [nS + 1]}, {'lab': 'b', 'att': []}],
+                          'ext': list(range(1, nS + 1))})
             ntn = ntn + ['P']
         if dead:
             rules.append({'lhs': 'D', 'nodes': [], 'edges': [{'lab': 'S' if els['S']['type'] == [] else 'D', 'att': []}, {'lab': 'D', 'att': []}], 'ext': []})
@@ -441,18 +450,27 @@ def gen_fx_recursive(rng, linear=False, max_q=None, dead=False, scalar_start=Fal
         ag = {'nls': nls, 'els': els, 'elorder': list(els), 'start': 'S', 'rules': rules, 'wfx': wfx}
         # target fixed point on the quarter grid
         x = {X: [Fraction(rng.choice([1, 2, 2, 3] if (dead or patterned) else [1, 2, 2, 3, 4, 6]), 4) for _ in range(numel(shape_of(ag, X)))] for X in ntn}
-        if patterned:
-            n = nls['T']
-            M = [[Fraction(wfx['m'][i * n + j], FXS) for j in range(n)] for i in range(n)]
-            Pw = [[Fraction(int(i == j)) for j in range(n)] for i in range(n)]
-            acc = [row[:] for row in Pw]
-            for _p in range(n):
-                acc = [[sum(acc[i][k] * M[k][j] for k in range(n)) for j in range(n)] for i in range(n)]
-                Pw = [[Pw[i][j] + acc[i][j] for j in range(n)] for i in range(n)]
-            bw = Fraction(wfx['b'][0], FXS)
-            x['P'] = [bw * Pw[i][j] for i in range(n) for j in range(n)]
         if dead:
             x['D'] = [Fraction(0)]
+        if patterned:
+            n = nls['T']
+            if pvariant == 'tri':
+                # P = b (I - M)^-1, by exact Gauss-Jordan on Fractions
+                M = [[Fraction(wfx['m'][i * n + j], FXS) for j in range(n)] for i in range(n)]
+                A = [[(Fraction(int(i == j)) - M[i][j]) for j in range(n)] + [Fraction(int(i == k)) for k in range(n)] for i in range(n)]
+                for c_ in range(n):
+                    piv = A[c_][c_]
+                    A[c_] = [v_ / piv for v_ in A[c_]]
+                    for r_ in range(n):
+                        if r_ != c_ and A[r_][c_] != 0:
+                            A[r_] = [vr - A[r_][c_] * vc for vr, vc in zip(A[r_], A[c_])]
+                inv = [row[n:] for row in A]
+                bw = Fraction(wfx['b'][0], FXS)
+                x['P'] = [bw * inv[i][j] for i in range(n) for j in range(n)]
+            else:
+                x['P'] = [(Fraction(wfx['a'][i], FXS) / (1 - Fraction(wfx['v'][i], FXS))) if i == j else Fraction(0) for i in range(n) for j in range(n)]
+            if any((v_ * FXS).denominator != 1 for v_ in x['P']):
+                continue
         cert, ok = {}, True
         if dead:
             cert['D'] = [0]
